@@ -10,6 +10,8 @@
 //	lock  X.Lock() / X.Unlock() / X.RLock() / X.RUnlock()            -> verifhook.Lock(site, &(X)) ...
 //	go    go f(a, b)                                                 -> { vf, va, vb := f, a, b; verifhook.Go(site, func(){ vf(va, vb) }) }
 //	rand  math/rand top-level calls                                  -> func() T { verifhook.Yield(site); return rand.F(args) }()
+//	select  select { case <-a: A; case b <- v: B }                   -> switch verifhook.SelectPick(site, R(a), S(b)) { case 0: select { case <-a: A }; case 1: select { case b <- v: B }; default: <original> }
+//	        (only selects with >= 2 communication clauses whose channel expressions are identifiers, selectors or x.Done(); not labelled; no labels in the bodies)
 //
 // The go/ast tree is used only to locate the byte ranges to edit; the edits are
 // applied to the original text, so comments, cgo preambles, build constraints
@@ -267,9 +269,101 @@ func (rw *rewriter) goStmt(g *ast.GoStmt) {
 	rw.counts["go"]++
 }
 
+// simpleChanExpr: evaluating the expression twice is harmless.
+func simpleChanExpr(e ast.Expr) bool {
+	switch v := e.(type) {
+	case *ast.Ident:
+		return true
+	case *ast.ParenExpr:
+		return simpleChanExpr(v.X)
+	case *ast.SelectorExpr:
+		return simpleChanExpr(v.X)
+	case *ast.CallExpr:
+		if se, ok := v.Fun.(*ast.SelectorExpr); ok && se.Sel.Name == "Done" && len(v.Args) == 0 {
+			return simpleChanExpr(se.X)
+		}
+	}
+	return false
+}
+
+func (rw *rewriter) selectStmt(sel *ast.SelectStmt, labelled bool) {
+	type cl struct {
+		cc   *ast.CommClause
+		ch   ast.Expr
+		send bool
+	}
+	var cls []cl
+	ok := !labelled
+	for _, st := range sel.Body.List {
+		cc := st.(*ast.CommClause)
+		if cc.Comm == nil {
+			continue // default
+		}
+		var c cl
+		c.cc = cc
+		switch v := cc.Comm.(type) {
+		case *ast.SendStmt:
+			c.ch, c.send = v.Chan, true
+		case *ast.ExprStmt:
+			if u, isU := v.X.(*ast.UnaryExpr); isU && u.Op == token.ARROW {
+				c.ch = u.X
+			}
+		case *ast.AssignStmt:
+			if len(v.Rhs) == 1 {
+				if u, isU := v.Rhs[0].(*ast.UnaryExpr); isU && u.Op == token.ARROW {
+					c.ch = u.X
+				}
+			}
+		}
+		if c.ch == nil || !simpleChanExpr(c.ch) {
+			ok = false
+		}
+		cls = append(cls, c)
+	}
+	// labels declared in a body would be declared twice
+	ast.Inspect(sel.Body, func(n ast.Node) bool {
+		if _, isL := n.(*ast.LabeledStmt); isL {
+			ok = false
+		}
+		return true
+	})
+	if !ok || len(cls) < 2 {
+		rw.counts["select-left"]++
+		return
+	}
+	e := &edit{lo: rw.off(sel.Pos()), hi: rw.off(sel.End())}
+	site := rw.site(sel.Pos())
+	e.gen = func() string {
+		var b strings.Builder
+		b.WriteString("switch " + hookName + ".SelectPick(" + site)
+		for _, c := range cls {
+			fn := ".R("
+			if c.send {
+				fn = ".S("
+			}
+			b.WriteString(", " + hookName + fn + rw.render(rw.off(c.ch.Pos()), rw.off(c.ch.End()), e) + ")")
+		}
+		b.WriteString(") {\n")
+		for i, c := range cls {
+			fmt.Fprintf(&b, "case %d:\nselect {\n%s\n}\n", i, rw.render(rw.off(c.cc.Pos()), rw.off(c.cc.End()), e))
+		}
+		b.WriteString("default:\n" + rw.render(e.lo, e.hi, e) + "\n}")
+		return b.String()
+	}
+	rw.edits = append(rw.edits, e)
+	rw.counts["select"]++
+}
+
 func (rw *rewriter) collect() {
+	labelled := map[ast.Stmt]bool{}
 	ast.Inspect(rw.file, func(n ast.Node) bool {
 		switch v := n.(type) {
+		case *ast.LabeledStmt:
+			labelled[v.Stmt] = true
+		case *ast.SelectStmt:
+			if rw.rules["select"] {
+				rw.selectStmt(v, labelled[v])
+			}
 		case *ast.CallExpr:
 			rw.call(v)
 		case *ast.GoStmt:
@@ -337,7 +431,7 @@ func main() {
 	out := flag.String("out", "", "directory for generated files")
 	harness := flag.String("harness", "", "harness root: <harness>/<rel pkg>/<file> is overlaid onto <repo>/<rel pkg>/<file>")
 	overlayPath := flag.String("overlay", "", "overlay json to write")
-	flag.Var(&pkgs, "pkg", "relpath:rule,rule (rules: net lock go rand); repeatable")
+	flag.Var(&pkgs, "pkg", "relpath:rule,rule (rules: net lock go rand select); repeatable")
 	flag.Parse()
 	if *out == "" || *overlayPath == "" {
 		fmt.Fprintln(os.Stderr, "seamgen: -out and -overlay required")
